@@ -112,6 +112,8 @@ type run struct {
 	shutErr          error
 	shutRetNs        int64
 	ctlDone          bool
+	secondShutRet    bool
+	secondShutErr    error
 	served           bool // OnServeFunc fired
 	acceptSeq        int
 	onErrors         []string
@@ -397,6 +399,28 @@ func (r *run) control() {
 			vsched.Signal()
 		}, false)
 		r.shutdown(gctx)
+	case "shutdown-twice", "shutdown-concurrent":
+		gctx, gcancel := context.WithCancel(context.Background())
+		vsched.GoNamed("gctx-timer", func() {
+			vtime.Sleep(2 * time.Second)
+			gcancel()
+			vsched.Signal()
+		}, false)
+		second := func() {
+			err := r.srv.Shutdown(gctx)
+			if vsched.Aborted() {
+				return
+			}
+			r.secondShutRet, r.secondShutErr = true, err
+		}
+		if sc.Control == "shutdown-concurrent" {
+			vsched.GoNamed("shutdown2", second, true)
+			r.shutdown(gctx)
+			vsched.Block("ctl.second", func() bool { return r.secondShutRet }, 0)
+		} else {
+			r.shutdown(gctx)
+			second()
+		}
 	case "shutdown-cancelled":
 		gctx, gcancel := context.WithCancel(context.Background())
 		gcancel()
@@ -441,6 +465,9 @@ func (r *run) client(i int) {
 				}
 				r.opsDone++
 				return
+			}
+			if r.shutRet && r.shutErr == nil && r.serveRet {
+				r.fail("dial-succeeded-after-shutdown", fmt.Sprintf("client %d connected although Shutdown had returned nil and Serve had returned: the port still accepts connections", i), nil)
 			}
 			cs.conn = c
 			if r.sc.Callbacks&CbAccept == 0 {
